@@ -1,4 +1,5 @@
 """WaveSim helpers: random delays/stimuli on a dyadic grid, waveform read-back, model requests."""
+import random
 import numpy as np
 from . import common, circ
 
@@ -62,13 +63,36 @@ def rand_delays(rng, n_lines, datasets=1, polarity_dependent=True, zero_forks=No
     return d
 
 
-def make_sim(c, delays, sims, c_caps=16, strip=False, reuse=False, cuda=False, a_ctrl=None):
+STATS = {'sims': 0, 'warmed': 0}
+
+
+def make_sim(c, delays, sims, c_caps=16, strip=False, reuse=False, cuda=False, a_ctrl=None, warm='auto'):
+    """a simulator object ready for a stimulus. In 2 of 5 cases (decided by a checksum of the delays, so that a case replays
+    exactly) the object has a HISTORY: an earlier, unrelated simulation (random stimulus with multi-transition input
+    waveforms, propagation, capture) has already run on it, as when one simulator serves many test vectors. Results must not
+    depend on what the object computed before; stale waveform cells, captured values and accumulators are left in place
+    (the accumulation buffer is reset, accumulation over calls being intended)."""
+    import zlib
     from kyupy import wave_sim
     cls = wave_sim.WaveSimCuda if cuda else wave_sim.WaveSim
     with common.quiet():
         ws = cls(c, delays, sims=sims, c_caps=c_caps, a_ctrl=a_ctrl, c_reuse=reuse, strip_forks=strip)
     ws.simctl_int[0] = 0
     ws.simctl_int[1] = 0
+    STATS['sims'] += 1
+    seed = zlib.crc32(np.ascontiguousarray(delays).tobytes()) if warm == 'auto' else warm
+    if seed is not None and (warm != 'auto' or seed % 5 < 2):
+        STATS['warmed'] += 1
+        rs = random.Random(seed)
+        i, t, f = rand_stim(rs, ws.s_len, sims)
+        ws.s[0] = i; ws.s[1] = t; ws.s[2] = f
+        ws.s_to_c()
+        overwrite_inputs(ws, rs, p=0.7)
+        with common.quiet():
+            ws.c_prop(); ws.c_to_s(time=np.float32(rs.choice([12.0, 30.0])))
+        if getattr(ws, 'abuf', None) is not None:
+            try: ws.abuf[...] = 0
+            except Exception: pass
     return ws
 
 
@@ -81,8 +105,24 @@ def rand_stim(rng, s_len, sims, tmax=40):
 
 
 def assign(ws, i, t, f):
+    """assign a stimulus; afterwards `ws.assign_mismatch` describes the first input slot whose waveform in memory is not the
+    one asked for ((initial, time, final) -> [], [t], [TMIN, t] or [TMIN], terminated), or is None"""
     ws.s[0] = i; ws.s[1] = t; ws.s[2] = f
     ws.s_to_c()
+    TMIN, TMAX, TOVL = consts()
+    cc = np.array(ws.c)
+    ws.assign_mismatch = None
+    for s_loc in ws.pippi_s_locs:
+        idx = ws.ppi_offset + int(s_loc)
+        loc, cap = int(ws.c_locs[idx]), int(ws.c_caps[idx])
+        if loc < 0: continue
+        for sim in range(ws.sims):
+            a, b, tt = bool(i[s_loc, sim] >= 0.5), bool(f[s_loc, sim] >= 0.5), float(t[s_loc, sim])
+            want = ([TMIN] if a else []) + ([tt] if a != b else [])
+            ents, term = read_wave(cc, loc, cap, sim)
+            if [float(x) for x in ents] != want or term != 'M':
+                ws.assign_mismatch = {'s_node': int(s_loc), 'lane': sim, 'assigned': [int(a), tt, int(b)], 'waveform_in_memory': fmt_wave(ents, term)}
+                return
 
 
 def overwrite_inputs(ws, rng, p=0.5, tmax=40):
